@@ -495,6 +495,102 @@ def pair_stream(ctx: Ctx, scratch: pathlib.Path) -> None:
 
 
 
+# --------------------------------------------------------------------------- errors found by the front end (spy)
+
+#: further defect units (module-level entities, shared references, members) — with PAIR_DEFECTS the units of front_end_error_stream
+MORE_UNITS = {
+    "dangling_subset": 'Set_{N}: Set[str] = constant_set(\n    values=["a", "b"],\n    superset_of=[Missing_{N}],\n)\n',
+    "set_unknown_item_type": 'Set_{N}: Set[Unknown_item_{N}] = constant_set(\n    values=[],\n)\n',
+    "shared_unknown_type": 'class {N}:\n    x: Unknown_shared\n\n    def __init__(self, x: Unknown_shared) -> None:\n        self.x = x\n',
+    "list_unknown": 'class {N}:\n    x: List[Unknown_in_list_{N}]\n\n    def __init__(self, x: List[Unknown_in_list_{N}]) -> None:\n        self.x = x\n',
+    "method_unknown_return": (
+        'class {N}:\n    x: int\n\n    def __init__(self, x: int) -> None:\n        self.x = x\n\n'
+        '    @implementation_specific\n    def compute(self) -> Unknown_return_{N}:\n        pass\n'
+    ),
+    "function_unknown_arg": '@verification\n@implementation_specific\ndef check_{N}(x: Unknown_arg_{N}) -> bool:\n    pass\n',
+    "enum_dup_value": 'class {N}(Enum):\n    A = "a"\n    B = "a"\n',
+    "wrong_arity": 'class {N}:\n    x: Optional[str, int]\n\n    def __init__(self, x: Optional[str, int]) -> None:\n        self.x = x\n',
+    "two_unknowns": 'class {N}:\n    x: Unknown_one\n    y: Unknown_one\n\n    def __init__(self, x: Unknown_one, y: Unknown_one) -> None:\n        self.x = x\n        self.y = y\n',
+}
+
+FRONT_END_SITES = ("parse/", "intermediate/", "run.py", "main.py", "common.py")
+
+
+def unreported_front_end_errors(res: Dict[str, Any]) -> List[Tuple[str, str, int, int]]:
+    """[(site, message, constructed, reported)]: messages of errors which the front end constructed more often than the
+    report shows them.
+
+    Written from the statement ("no error is ever silently dropped (the front end reports every independent error it
+    found)"): an ``Error`` object constructed by the front end during a run that ends with a report is something the front
+    end found; whether it is nested or top-level, its message text must be in the report once per construction."""
+    import collections
+
+    if res["exc"] is not None or res["rc"] == 0:
+        return []
+    report = _norm(res["stderr"])
+    count: Dict[str, int] = collections.Counter()
+    site_of: Dict[str, str] = {}
+    for site, message in res["errors_created"]:
+        if site.startswith(FRONT_END_SITES):
+            m = _norm(message)
+            count[m] += 1
+            site_of.setdefault(m, site)
+    out = []
+    for m, k in count.items():
+        occ = report.count(m) if m else k
+        if occ < k:
+            out.append((site_of[m], m, k, occ))
+    return out
+
+
+def front_end_error_stream(ctx: Ctx, scratch: pathlib.Path) -> None:
+    """Models with one or two defect units (classes, constant sets, functions, enumerations; the same defect twice, shared
+    dangling references) and the recorded 'unexpected' fixtures, run with the error spy."""
+    import itertools
+
+    sn = REPO / "dev/test_data/main/jsonschema/expected/primitive_types/input/snippets"
+    units = dict(PAIR_DEFECTS)
+    units.update(MORE_UNITS)
+    names = sorted(units)
+    pairs = list(itertools.product(names, names))
+    if ctx.tier == "quick" and not ctx.searching:
+        # every twin, every pair with one of the further units, a seeded sample of the rest
+        fixed = [(a, b) for a, b in pairs if a == b or a in MORE_UNITS or b in MORE_UNITS]
+        rest = [pr for pr in pairs if pr not in set(fixed)]
+        ctx.rng.shuffle(rest)
+        pairs = fixed + rest[:40]
+    p = scratch / "fe_model.py"
+
+    def judge_run(inp: Dict[str, Any], res: Dict[str, Any]) -> None:
+        for site, message, made, shown in unreported_front_end_errors(res):
+            ctx.hit("front-end-error:unreported")
+            sig = f"C03:error-dropped:front-end:{site}"
+            if sum(1 for f in ctx.failures if f["sig"] == sig) < 2:
+                ctx.fail(
+                    inp,
+                    f"the front end constructed the error {message[:160]!r} {made} time(s) in {site}, the report (exit {res['rc']}) shows it {shown} time(s)",
+                    sig,
+                )
+
+    for a, b in pairs:
+        text = "\n\n".join([units[a].format(N="First"), units[b].format(N="Second")]) + PAIR_TAIL
+        p.write_text(text)
+        res = run_cli(p, "jsonschema", sn, scratch / "fe_out", scratch, spy=True)
+        ctx.count(("front-end-errors", a, b), nontrivial=True, stream="cli-front-end-errors")
+        ctx.hit("front-end-error:rc=" + str(res["rc"]) if res["exc"] is None else "front-end-error:" + res["exc"])
+        ctx.hit("front-end-error:constructed", len(res["errors_created"]))
+        for sig, what in judge(res):
+            ctx.fail({"kind": "front-end-errors", "first": a, "second": b, "model": text}, what, sig + ":front-end-errors")
+        judge_run({"kind": "front-end-errors", "first": a, "second": b, "model": text}, res)
+    for kind, model, target, snippets in fixture_cases(2):
+        if kind == "valid":
+            continue
+        res = run_cli(model, target or "jsonschema", snippets or sn, scratch / "fe_out", scratch, spy=True)  # type: ignore
+        ctx.count(("front-end-errors-fixture", str(model), target), nontrivial=True, stream="cli-front-end-errors-fixture")
+        judge_run({"kind": "front-end-errors-fixture", "model": str(model), "target": target, "snippets": str(snippets)}, res)
+    shutil.rmtree(scratch / "fe_out", ignore_errors=True)
+
+
 # --------------------------------------------------------------------------- errors found by the generators
 
 GEN_HEADER = '''\
@@ -795,6 +891,7 @@ def oracle(ctx: Ctx) -> None:
             shutil.rmtree(out, ignore_errors=True)
     ctx.extra_cov["cli_runs"] = kinds
     pair_stream(ctx, scratch)
+    front_end_error_stream(ctx, scratch)
     generator_error_stream(ctx, scratch)
     for c in corpus(ID):
         if c.get("kind") == "generator-error" and "missing" in c:
@@ -812,6 +909,12 @@ def replay(ctx: Ctx, data: Dict[str, Any]) -> Any:
         if ctx.driver_ok:
             res["model"] = ctx.model([f"write {enc_text(inp['message'])} {enc_list(inp['errors'])}"])[0]
         return res
+    if inp.get("kind") == "front-end-errors":
+        sn = REPO / "dev/test_data/main/jsonschema/expected/primitive_types/input/snippets"
+        mp = scratch / "fe_replay.py"
+        mp.write_text(inp["model"])
+        res = run_cli(mp, "jsonschema", sn, scratch / "fe_replay_out", scratch, spy=True)
+        return {"rc": res["rc"], "stderr": res["stderr"], "exc": res["exc"], "oracle": judge(res), "unreported": unreported_front_end_errors(res)}
     if inp.get("kind") == "generator-error":
         # exactly the recorded model (whether or not it still is a part of the enumerated stream)
         only = (inp["name"], inp["target"]) + ((inp["missing"],) if "missing" in inp else ())
